@@ -60,6 +60,17 @@ def snippet_runner(mod, first, last):
                 if first in texts and last in texts:
                     i, j = texts.index(first), texts.index(last)
                     return compile(ast.Module(body=seq[i:j + 1], type_ignores=[]), mod.__file__, "exec")
+    # the exact statements are gone: fall back to "from the first assignment of the merged dictionary
+    # to the statement before the key is computed" so that the rewritten code is still run
+    for node in ast.walk(tree):
+        for fld in ("body", "orelse"):
+            seq = getattr(node, fld, None)
+            if isinstance(seq, list):
+                tgt = first.split("=")[0].strip()
+                idx = [k for k, x in enumerate(seq) if isinstance(x, ast.Assign) and ast.unparse(x.targets[0]) == tgt]
+                stop = [k for k, x in enumerate(seq) if "serialize_funct_h5" in ast.unparse(x)]
+                if idx and stop and idx[0] < stop[0]:
+                    return compile(ast.Module(body=seq[idx[0]:stop[0]], type_ignores=[]), mod.__file__, "exec")
     raise RuntimeError("snippet not found in %s" % mod.__file__)
 
 
@@ -84,6 +95,8 @@ def build_cases(res):
 
             def start(self):
                 pass
+
+        ek_before = json.loads(json.dumps(ek))
 
         def call():
             td2 = json.loads(json.dumps(td))
@@ -111,6 +124,11 @@ def build_cases(res):
                     verdict = "effective %s is %r, the property requires %r (call %r over executor %r)" % (k, kw.get(k), v, rd, ek)
             if not seen.get("rd_unchanged", True):
                 verdict = "the caller's resource_dict was modified"
+        ek_after = {k: v for k, v in ek.items() if isinstance(v, (int, str, bool, type(None)))}
+        if ek_after != ek_before or set(ek) != set(ek_before):
+            verdict = ("submitting a call with resource_dict %r changed the executor's own keyword arguments from %r to %r: "
+                       "the resources of this call leak into every later call" % (rd, ek_before, {k: repr(v)[:40] for k, v in ek.items()}))
+            ek = ek_before
         coq = ("show_res3 (_submit_function_to_separate_process (fun a _ _ _ => Ok a) %s %s (VStr \"Q\") (VStr \"SP\") %s (VInt 4) VNone VNone)"
                % (pyval(td), pyval(act), pyval(ek)))
         cases.append(("_submit_function_to_separate_process", dict(executor=ek, call=rd), coq, py, verdict))
@@ -127,11 +145,17 @@ def build_cases(res):
         py = show_outcome(call2)
         verdict = None
         if py.startswith("Ok"):
-            merged = call2()[0]
+            merged, td_after, rdx_after = call2()
             exp = dict(rdx)
             exp.update(rd)
             if merged != exp:
                 verdict = "file mode merges to %r, the property requires %r" % (merged, exp)
+            if td_after["resource_dict"] != rd:
+                verdict = ("file mode: merging the executor defaults %r modified the call's own resource_dict from %r to %r "
+                           "(the object the caller passed; a dictionary shared between calls then carries one call's resources into the next)"
+                           % (rdx, rd, td_after["resource_dict"]))
+            if rdx_after != rdx:
+                verdict = "file mode: the executor's resource defaults were modified: %r -> %r" % (rdx, rdx_after)
         cases.append(("execute_tasks_h5 (resource merge)", dict(executor=rdx, call=rd),
                       "show_res (file_mode_resources %s %s)" % (pyval(td), pyval(rdx)), py, verdict))
         # slot guards
